@@ -16,8 +16,10 @@ if [ -n "${FAST:-}" ]; then
     else echo "MISSED  $n"; echo "$out" | tail -5; fi
   }
   export -f one
-  printf '%s\n' "${names[@]}" | xargs -P "${JOBS:-3}" -I{} bash -c 'one {}' | tee /dev/stderr | grep -q "^MISSED" && exit 1
-  exit 0
+  log=$(mktemp /tmp/sens.XXXXXX)
+  printf '%s\n' "${names[@]}" | xargs -P "${JOBS:-3}" -I{} bash -c 'one {}' | tee "$log"
+  if grep -q "^MISSED" "$log"; then rm -f "$log"; exit 1; fi
+  rm -f "$log"; exit 0
 fi
 miss=0
 for n in "${names[@]}"; do
